@@ -200,8 +200,9 @@ pub fn main(args: &[String]) -> i32 {
         if wide > 0 && step % wide_every == wide_every / 2 {
             // one batch with many records (allocation journal longer than one 512-byte sector),
             // then an acknowledged flush
+            for round in 0..2 {
             for j in 0..wide.min(keys.len()) {
-                let ki = (j + step) % keys.len();
+                let ki = (j + step + round) % keys.len();
                 let (key, kid) = (keys[ki].clone(), ki + 1);
                 let call_idx = calls.len() as u64;
                 let val = vec![b'A' + ((step + j) % 26) as u8; 24 + (j % 7) * 40];
@@ -224,6 +225,7 @@ pub fn main(args: &[String]) -> i32 {
                 let res = store.flush();
                 flushes.push(FlushInfo { ok: res.is_ok(), snap: snapshot(&store, &keys) });
                 obs::api("flush_end", &[], id, res.is_ok() as u64, 0);
+            }
             }
         }
         let ki = rng.random_range(0..keys.len());
@@ -1056,4 +1058,79 @@ fn store_report(store: &FeoxStore, keys: &[Vec<u8>]) -> Value {
     let memsum: usize = snap.iter().map(|r| FeoxStore::verif_record_overhead() + r.key.len() + r.value_len).sum();
     json!({"ok": true, "err": "", "recs": recs, "len": store.len(), "extra": extra, "free": store.verif_free_runs(),
            "mem": store.memory_usage(), "memsum": memsum})
+}
+
+
+thread_local!(static ALLOCATED_VICTIM: std::cell::Cell<bool> = const { std::cell::Cell::new(false) });
+
+/// C02/C03/C09 scenario "stale marker chain": a retired two-block extent [s, s+1] leaves the markers
+/// M(remaining 2), M(remaining 1).  Two workers then allocate concurrently: one reserves block s for a
+/// record whose batch fails (journal write error, determinate: the reservation is released and the
+/// record is deleted before any retry), the other writes a record at s+1 that is acknowledged by a
+/// later successful flush.  Block s is free again and still says "two blocks retired from here".
+pub fn stalechain_main(args: &[String]) -> i32 {
+    use std::sync::atomic::{AtomicBool, Ordering};
+    let o = Opts::parse(args);
+    let dir = o.req("dir").to_string();
+    std::fs::create_dir_all(&dir).ok();
+    obs::set_cpus(4);
+    feoxdb::verif::force_sync(true);
+    crate::util::watchdog::start(60);
+    static ARMED: AtomicBool = AtomicBool::new(false);
+    let attempts: usize = o.num("attempts", 40);
+    for attempt in 0..attempts {
+        let path = format!("{dir}/stale_{attempt}.feox");
+        let _ = std::fs::remove_file(&path);
+        let build = || FeoxStore::builder().device_path(path.clone()).file_size(64 * 4096).enable_caching(false).enable_ttl(false).hash_bits(4).build();
+        let store = build().expect("build");
+        store.insert(b"x", &vec![b'X'; 5000]).unwrap();
+        store.flush().unwrap();
+        let xs = store.verif_record(b"x").unwrap().sector;
+        store.delete(b"x").unwrap();
+        store.flush().unwrap();
+        // victim (one block, its batch fails) and survivor, on different workers
+        let victim = format!("victim{attempt}").into_bytes();
+        let survivor = format!("survivor{attempt}").into_bytes();
+        let vk = victim.clone();
+        ALLOCATED_VICTIM.with(|c| c.set(false));
+        feoxdb::verif::install(Box::new(move |_seq, ev| {
+            if ev.kind == "alloc" && ev.key == vk.as_slice() { ALLOCATED_VICTIM.with(|c| c.set(true)); }
+        }));
+        feoxdb::verif::set_fault_fn(Some(Box::new(|_idx, kind, sector, _len| {
+            if ARMED.load(Ordering::SeqCst) && kind == "write" && (1..7).contains(&sector) && ALLOCATED_VICTIM.with(|c| c.get()) {
+                ALLOCATED_VICTIM.with(|c| c.set(false));
+                1
+            } else { 0 }
+        })));
+        ARMED.store(true, Ordering::SeqCst);
+        store.insert(&victim, b"victim-value").unwrap();
+        store.insert(&survivor, b"survivor-value").unwrap();
+        let first = store.flush();
+        ARMED.store(false, Ordering::SeqCst);
+        feoxdb::verif::set_fault_fn(None);
+        feoxdb::verif::uninstall();
+        let vs = store.verif_record(&victim).map(|r| r.sector).unwrap_or(0);
+        let ss = store.verif_record(&survivor).map(|r| r.sector).unwrap_or(0);
+        if first.is_ok() || vs != 0 || ss != xs + 1 {
+            // same worker, or the survivor was placed first: not the layout of the scenario
+            std::mem::forget(store);
+            continue;
+        }
+        store.delete(&victim).unwrap();
+        let second = store.flush();
+        let acked = second.is_ok() && store.get(&survivor).map(|v| v == b"survivor-value").unwrap_or(false);
+        drop(store);   // clean close
+        let reopened = build();
+        let after = match &reopened {
+            Ok(s) => match s.get(&survivor) { Ok(v) => String::from_utf8_lossy(&v).to_string(), Err(e) => format!("Err({})", crate::util::err_name(&e)) },
+            Err(e) => format!("open failed: {}", crate::util::err_name(e)),
+        };
+        println!("{}", json!({"attempt": attempt, "retired_extent": [xs, 2], "survivor_sector": ss, "first_flush": format!("{:?}", first.as_ref().err().map(|e| crate::util::err_name(e))),
+                              "second_flush_ok": second.is_ok(), "acknowledged": acked, "after_clean_reopen": after,
+                              "lost": acked && after != "survivor-value"}));
+        if let Ok(s) = reopened { std::mem::forget(s); }
+        return 0;
+    }
+    println!("{}", json!({"attempt": attempts, "inconclusive": true}));
+    0
 }
